@@ -34,8 +34,21 @@ def run_cases(chk, cases_lines, tag, owner):
     work = os.path.join(common.BUILD, "work-%s-%d" % (chk.pid, os.getpid()))
     shutil.rmtree(work, ignore_errors=True)
     cases = polyrun.split_cases(cases_lines)
-    kept, obs, crashes = polyrun.run_harness(exe, cases, work, tag)
-    res, stat, cov = polyrun.run_judge(judge, kept, obs, work, tag)
+    # the judge is single-threaded: run disjoint slices of the case list side by side and merge the verdicts
+    nworkers = max(1, min(int(os.environ.get("VERIF_JOBS", "8")), len(cases) // 40))
+    slices = [cases[i::nworkers] for i in range(nworkers)]
+    def one(k):
+        kept, obs, crashes = polyrun.run_harness(exe, slices[k], work, "%s%d" % (tag, k))
+        res, stat, cov = polyrun.run_judge(judge, kept, obs, work, "%s%d" % (tag, k))
+        return res, stat, cov, crashes
+    from concurrent.futures import ThreadPoolExecutor
+    with ThreadPoolExecutor(max_workers=nworkers) as ex:
+        parts = list(ex.map(one, range(nworkers)))
+    res, stat, cov, crashes = [], {}, {}, []
+    for r, st, cv, cr in parts:
+        res += r; crashes += cr
+        for k, v in st.items(): stat[k] = stat.get(k, 0) + v
+        for k, v in cv.items(): cov[k] = cov.get(k, 0) + v
     byid = polyrun.case_by_id(cases)
     out = {"stat": stat, "cov": cov, "fails": [], "undecided": 0, "crashes": crashes}
     for f in res:
